@@ -440,9 +440,9 @@ func genEF(r *vlib.Rand, ns, name string) string {
 		case 2:
 			fmt.Fprintf(&b, "- applyTo: VIRTUAL_HOST\n  match:\n    context: %s\n  patch:\n    operation: MERGE\n    value:\n      include_request_attempt_count: %v\n", ctx, r.Bool())
 		case 3:
-			// NOT max_direct_response_body_size_bytes: merging into that field mutates a process-wide default
-			// (known finding C01-envoyfilter-merge-mutates-shared-default, reproduced by its own scripted session)
-			fmt.Fprintf(&b, "- applyTo: ROUTE_CONFIGURATION\n  match:\n    context: %s\n  patch:\n    operation: MERGE\n    value:\n      most_specific_header_mutations_wins: %v\n      response_headers_to_add:\n      - header:\n          key: x-verif-rc\n          value: \"v%d\"\n", ctx, r.Bool(), r.Intn(5))
+			// includes wrapper-typed fields (max_direct_response_body_size_bytes, validate_clusters): merging into them
+			// used to mutate process-wide shared wrappers (former finding, repaired in /repo f7db64b)
+			fmt.Fprintf(&b, "- applyTo: ROUTE_CONFIGURATION\n  match:\n    context: %s\n  patch:\n    operation: MERGE\n    value:\n      most_specific_header_mutations_wins: %v\n      max_direct_response_body_size_bytes: %d\n      response_headers_to_add:\n      - header:\n          key: x-verif-rc\n          value: \"v%d\"\n", ctx, r.Bool(), 2048+r.Intn(4096), r.Intn(5))
 		default:
 			fmt.Fprintf(&b, "- applyTo: HTTP_FILTER\n  match:\n    context: %s\n    listener:\n      filterChain:\n        filter:\n          name: envoy.filters.network.http_connection_manager\n          subFilter:\n            name: envoy.filters.http.router\n  patch:\n    operation: INSERT_BEFORE\n    value:\n      name: verif.lua%d\n      typed_config:\n        \"@type\": type.googleapis.com/envoy.extensions.filters.http.lua.v3.Lua\n        inlineCode: \"function envoy_on_request(h) end -- %d\"\n", ctx, r.Intn(2), r.Intn(5))
 		}
